@@ -28,7 +28,7 @@ KINDS = ["dense", "conv1d", "conv2d", "dw", "sep1d", "sep2d", "rnn", "lstm", "gr
 WQ = [None, "quantized_bits(4,0,1,alpha=1.0)", "quantized_bits(3,1,0,alpha=1.0)", "quantized_bits(4,0,1)",
       "quantized_po2(4)", "ternary(alpha=1.0)", "binary(alpha=1.0)", "ternary", "binary",
       "quantized_bits(5,2,1,alpha='auto')", "quantized_linear(4,0)"]
-BQ = [None, "quantized_bits(4,0,1)", "quantized_bits(6,2,1)", "quantized_po2(4)"]
+BQ = [None, "quantized_bits(4,0,1)", "quantized_bits(6,2,1)", "quantized_po2(4)", "quantized_bits(5,1,1,alpha='auto')"]
 AQ = [None, "quantized_relu(4,1)", "quantized_bits(6,2,1)", "quantized_tanh(4)", "relu", "tanh"]
 
 
@@ -70,6 +70,9 @@ def cases(tier, seed):
       c.update(units=ri(1, 4), rq=pick(WQ), sq=pick([None, "quantized_bits(6,2,1)"]), seq=bool(ri(0, 1)),
                xin=(ri(1, 2), ri(2, 5), ri(1, 3)), aq=pick(["quantized_tanh(4)", "tanh", "quantized_bits(6,2,1)"]),
                impl=ri(1, 2), reset_after=bool(ri(0, 1)))
+      if kind == "gru" and rnd.random() < 0.3:
+        # the stored GRU bias has rank 2 with reset_after: a data-dependent bias quantizer sees the whole weight
+        c.update(bq="quantized_bits(5,1,1,alpha='auto')", use_bias=True, reset_after=True)
     elif kind == "avgpool":
       c.update(pool=(ri(1, 3), ri(1, 3)), s=pick([None, (1, 1), (2, 2)]), pad=pick(["valid", "same"]),
                avq=pick([None, "quantized_bits(8,0,1)", "quantized_bits(4,0,1)", "quantized_po2(4)"]),
@@ -90,6 +93,9 @@ def cases(tier, seed):
       c["d"] = 1
     if kind in ("conv1d", "conv2d", "dw", "sep1d", "sep2d") and rnd.random() < 0.3 and c["s"] in (1, (1, 1)):
       c["d"] = 2
+    if kind in ("conv1d", "sep1d") and c["pad"] == "causal" and rnd.random() < 0.6:
+      c["s"], c["d"] = 1, pick([2, 2, 3])        # causal padding depends on the dilation: (k-1)*d leading steps
+      c["k"] = max(c["k"], 2)
     if kind == "conv2d" and rnd.random() < 0.25 and c["xin"][-1] in (2, 4) and c["filters"] in (2, 4):
       c["groups"] = 2
     if kind in ("avgpool", "gavgpool", "scaleshift") and c["aq"] in ("relu", "tanh"):
